@@ -215,6 +215,49 @@ fn check_one(text: &str) -> Result<Outcome, Failure> {
     }
 }
 
+pub const LONG_CHAIN_SIGNATURE: &str = "abort: a long operator chain without bracket nesting ends the process (stack overflow)";
+
+/// child side of `--parse-probe <file>`: parse the text on the main thread (8 MiB stack) with the C14 predicate
+pub fn parse_probe_main(path: &str) -> i32 {
+    let text = match std::fs::read_to_string(path) {
+        Ok(t) => t,
+        Err(_) => return 2,
+    };
+    match check_text(&text) {
+        Ok(()) => 0,
+        Err(f) => {
+            eprintln!("{} :: {}", f.signature, f.message);
+            1
+        }
+    }
+}
+
+fn probe_in_child(text: &str, ctx: &Ctx) -> Result<(), Failure> {
+    use std::os::unix::process::ExitStatusExt;
+    let path = ctx.file("c14-probe.sql");
+    crate::exec::write_file(&path, text.as_bytes());
+    let output = match std::process::Command::new(crate::run::child_exe()).arg("--parse-probe").arg(&path).output() {
+        Ok(o) => o,
+        Err(e) => {
+            eprintln!("cannot start the parse probe: {}", e);
+            std::process::exit(2);
+        }
+    };
+    let head: String = text.chars().take(80).collect();
+    match output.status.code() {
+        Some(0) => Ok(()),
+        Some(1) => Err(Failure::new("long-chain: predicate", format!("{} ({} characters): {}", head, text.len(), String::from_utf8_lossy(&output.stderr).lines().last().unwrap_or("")))),
+        Some(_) => {
+            eprintln!("parse probe problem: {:?}", output.status);
+            std::process::exit(2);
+        }
+        None => Err(Failure::new(
+            LONG_CHAIN_SIGNATURE,
+            format!("parsing `{}...` ({} characters, no bracket nesting) ended the process with signal {:?}: {}", head, text.len(), output.status.signal(), String::from_utf8_lossy(&output.stderr).lines().find(|l| l.contains("overflow")).unwrap_or("")),
+        )),
+    }
+}
+
 impl Property for C14 {
     type Case = Case;
 
@@ -225,7 +268,7 @@ impl Property for C14 {
     fn rule(&self) -> String {
         "inputs from six generators: (a) random Unicode strings of all planes incl. NUL, combining marks, Unicode digits/whitespace; (b) token soups over the SQL vocabulary; \
          (c) valid statements with one token deleted / duplicated / swapped / replaced; (d) every character prefix and every token prefix of valid statements; (e) bracket / CASE / call / NOT / minus \
-         nesting up to depth 200 (balanced and unbalanced); (f) definitions invalid by construction (bad regex, empty JSON path, wrong aggregate arity, numbers out of range) which must be rejected. \
+         nesting up to depth 200 (balanced and unbalanced); (g) one case in 400: an operator chain of 100 - 10 000 terms without bracket nesting, parsed in a child process of its own; (f) definitions invalid by construction (bad regex, empty JSON path, wrong aggregate arity, numbers out of range) which must be rejected. \
          Oracle: parse returns without panic; an error is located inside the text (line <= number of newlines, column <= characters of that line) and its 'near' excerpt can be produced. \
          Non-trivial: >= 3 crude tokens and (accepted, or rejected with a located error); distinct by text."
             .to_string()
@@ -259,6 +302,25 @@ impl Property for C14 {
 
     fn generate(&self, t: &mut Tape, ctx: &Ctx) -> Case {
         let mut case = Case { text: String::new(), kind: String::new(), all_prefixes: false, must_reject: false };
+        if t.chance(1, 400) {
+            // "any length": a long statement without bracket nesting - an operator chain of hundreds to thousands of terms
+            case.kind = "long-chain".into();
+            let mut n = *t.pick(&[100usize, 150, 400, 1000, 3000, 10000]);
+            if ctx.excluded("c14_long_chain") {
+                // open known finding: chains beyond a few hundred terms overflow the stack
+                n = n.min(150);
+            }
+            let chain = match t.draw(6) {
+                0 => (0..n).map(|i| format!("x = {}", i)).collect::<Vec<_>>().join(" OR "),
+                1 => format!("x{}", " + 1".repeat(n)),
+                2 => format!("{}x", "- ".repeat(n)),
+                3 => format!("{}b", "NOT ".repeat(n)),
+                4 => format!("x{}", "::int".repeat(n)),
+                _ => (0..n).map(|i| format!("x != {}", i)).collect::<Vec<_>>().join(" AND "),
+            };
+            case.text = if t.chance(1, 2) { format!("SELECT x FROM t WHERE {}", chain) } else { format!("SELECT {} FROM t", chain) };
+            return case;
+        }
         match t.weighted(&[2, 3, 4, 2, 1, 1, 1]) {
             0 => {
                 case.kind = "unicode".into();
@@ -334,6 +396,12 @@ impl Property for C14 {
             "nesting" => obs.label("gen-nesting"),
             "invalid-definition" => obs.label("gen-invalid-definition"),
             _ => {}
+        }
+        if case.kind == "long-chain" {
+            // parsed in a process of its own: a stack overflow there is an abort of that process, observed here
+            obs.label("gen-long-chain");
+            obs.nontrivial = true;
+            return probe_in_child(&case.text, _ctx);
         }
         let outcome = check_one(&case.text)?;
         match outcome {
